@@ -267,6 +267,9 @@ def gen_scenario(fl, rnd, ranks, nblocks, onerank, scale=1.0):
         blk["F"][1] = add("forall 1")
         for d in obs[cut:]:
             blk["obs"].append((add(" ".join(d)), d))
+        # no rank starts the next block before every rank has finished these observations (a rank still inside the
+        # last collective could otherwise execute operations of the next block before its local for_all)
+        add("B")
         blocks.append(blk)
     return {"lines": lines, "blocks": blocks, "dv": dv, "universe": uni, "base": base}
 
@@ -323,6 +326,8 @@ def parse_rank(lines):
             owners[uq(w[1])] = int(w[2])
         elif t == "I":
             events.append(("I", int(w[1])))
+        elif t == "P":
+            events.append(("P",))
         elif t == "cb":
             events.append(("cb", int(w[1]), w[2:]))
         elif t == "em":
@@ -443,11 +448,18 @@ def analyse(fl, scn, sr, case, res, model_ok):
             cbs_by_key, em_by_parent, em_all, cbseq, emseq, order = {}, {}, [], [], [], []
             for r in range(R):
                 lastcb, in_consume = None, False
+                pend_main, pend_em = None, None       # 1 rank: `P` = the pending operation was packed into the send buffer
                 for e in ev[r]:
                     if e[0] == "I":
                         m = [o for (li, rr, o) in main if li == e[1]]
-                        if m:
-                            order.append(m[0])
+                        pend_main = m[0] if m else None
+                    elif e[0] == "P":
+                        if pend_em is not None:
+                            order.append(pend_em)
+                            pend_em = None
+                        elif pend_main is not None:
+                            order.append(pend_main)
+                            pend_main = None
                     elif e[0] == "cb" and e[1] == c:
                         in_consume = fl.is_consume_cb(e[2])
                         if in_consume:
@@ -464,7 +476,7 @@ def analyse(fl, scn, sr, case, res, model_ok):
                         em_by_parent.setdefault(lastcb, []).append(e[2])
                         em_all.append(e[2])
                         emseq.append(e[2])
-                        order.append(e[2])
+                        pend_em = e[2]
             allops = [o for (_, _, o) in main] + em_all
             if onerank:
                 # ------------------------------------------------ (a) exact sequence semantics
